@@ -61,6 +61,9 @@ type FuncContract struct {
 	FrameProp  string
 	Reveal     []string
 	Unreachable []string
+	// Records: ghost history effects, `//@ records g += expr`: on every normal return of the function the entry
+	// value of expr is added to the ghost set g (g then denotes "the objects this function has returned for")
+	Records []*ModLoc
 }
 
 type SpecFunc struct {
@@ -276,6 +279,15 @@ func parseSpecSource(path string, src []byte) (*SpecFile, error) {
 			} else if cur != nil {
 				cur.Reveal = append(cur.Reveal, names...)
 			}
+		case "records":
+			if cur == nil {
+				return nil, fmt.Errorf("%s:%d: records outside func", path, d.line)
+			}
+			i := strings.Index(rest, "+=")
+			if i < 0 {
+				return nil, fmt.Errorf("%s:%d: records needs `ghost += expr`", path, d.line)
+			}
+			cur.Records = append(cur.Records, &ModLoc{Kind: "record", Fld: strings.TrimSpace(rest[:i]), Text: strings.TrimSpace(rest[i+2:])})
 		case "unreachable":
 			if cur != nil {
 				cur.Unreachable = append(cur.Unreachable, strings.TrimSpace(rest))
